@@ -18,31 +18,34 @@
   Known findings (each: the refuted full statement at a witness, and the `_partial` theorem whose
   guard excludes exactly the finding's shape):
     K1A  the ` REGION: a..b` suffix is read back into Accession        (accession_*)
-    K1B  an organism name that `wrap.Space` breaks loses its tail to the taxonomy  (organism_*)
-    K1C  a species text that `wrap.Space` breaks comes back with line feeds       (species_*)
-    K1D  a toggle qualifier's value comes back as the line feed                   (toggle_*)
-    K1E  a double quote inside a quoted value ends the value                      (quote_*)
+    K1E  a double quote inside a quoted value ends the value           (quote_*)
+  Repaired in /repo and therefore plain positive theorems now: the organism name (F27, repo 69bb3bf:
+  written unwrapped), the SOURCE text (F28, repo 3d74d27: written as it is), toggle qualifiers (F29,
+  repo 2dd2956: the value reads back empty) — `source_roundtrip`, `toggle_roundtrip`.
 -/
 import Gts.Lemmas.GbReadWrite
 import Gts.Lemmas.GbLocRT
+import Gts.Lemmas.GbProps
 namespace Gts.C01
 open Gts Gts.Pars Gts.GenBank
 
 /-! ## qualifiers -/
 
 /-- **Qualifier round trip (quoted / literal / toggle / unknown, continuation lines at the indent).**
-`QualifierParser(prefix)` on the text of `QualifierIO.Format(prefix)`: same name; same value for
-quoted, literal and unknown names — the value of a toggle is not written and comes back as `\n`
-(K1D, see `toggle_value_partial`); the registry only grows: an unknown name is learned as quoted.
+`QualifierParser(prefix)` on the text of `QualifierIO.Format(prefix)`: the same name and the same
+value; the registry only grows: an unknown name is learned as quoted.
 Domain `WritableQualifier`: a snake-case name; quoted/unknown: the value survives the quote scan of
 `pars.Quoted` and no line feed in it is followed by the whole indent; literal: no carriage return, no
-continuation line starting with `/`; toggle: any value. -/
+continuation line starting with `/`; toggle: the empty value (a toggle has none: the writer writes
+`/name`). -/
 theorem qualifier_roundtrip (reg : Registry) (d : Nat) (name value rest : Bytes) (stk : List Bytes)
     (hw : WritableQualifier reg d name value = true) (hstop : litStop d rest) :
     qualifier (sp d) reg ⟨qualifierFmt reg (sp d) name value ++ 10 :: rest, stk⟩ =
-      (.ok ((name, readValue reg name value), learn reg name), ⟨rest, stk⟩) ∧
-    reg.le (learn reg name) :=
-  ⟨GenBank.qualifier_roundtrip reg d name value rest stk hw hstop, learn_le reg name⟩
+      (.ok ((name, value), learn reg name), ⟨rest, stk⟩) ∧
+    reg.le (learn reg name) := by
+  refine ⟨?_, learn_le reg name⟩
+  have := GenBank.qualifier_roundtrip reg d name value rest stk hw hstop
+  rwa [readValue_eq reg d name value hw] at this
 
 /-- non-vacuity: a three-line quoted value (with a line starting with a slash and one starting with
 20 blanks), a literal value with a continuation line, a toggle, and an unknown name are in the
@@ -50,34 +53,27 @@ domain under the initial registry -/
 example :
     WritableQualifier Registry.default 21 (bs "note") (bs "first\n/second\n                    third \\\" x") = true ∧
     WritableQualifier Registry.default 21 (bs "transl_except") (bs "(pos:1..3,\n aa:Met)") = true ∧
-    WritableQualifier Registry.default 21 (bs "pseudo") (bs "anything") = true ∧
+    WritableQualifier Registry.default 21 (bs "pseudo") [] = true ∧
     WritableQualifier Registry.default 21 (bs "my_tag") (bs "v") = true ∧
     Registry.default.typeOf (bs "my_tag") = .unknown := by decide +kernel
 
-/-- K1D, FULL STATEMENT (false): "a toggle qualifier's value reads back".  Refuted for every toggle
-name and every value other than the line feed. -/
-theorem toggle_value_full_refuted :
-    ¬ (∀ (reg : Registry) (name value rest : Bytes), WritableQualifier reg 21 name value = true →
-        litStop 21 rest →
-        ((qualifier (sp 21) reg).run' ⟨qualifierFmt reg (sp 21) name value ++ 10 :: rest, []⟩).1 =
-          .ok ((name, value), learn reg name)) := by
-  intro h
-  have := h Registry.default (bs "pseudo") [] [] (by decide +kernel) (Or.inl rfl)
-  rw [show (qualifier (sp 21) Registry.default).run' ⟨qualifierFmt Registry.default (sp 21) (bs "pseudo") [] ++ [10], []⟩ =
-    qualifier (sp 21) Registry.default ⟨qualifierFmt Registry.default (sp 21) (bs "pseudo") [] ++ [10], []⟩ from rfl,
-    GenBank.qualifier_roundtrip Registry.default 21 (bs "pseudo") [] [] [] (by decide +kernel) (Or.inl rfl)] at this
-  revert this
-  decide +kernel
+/-- **Toggle qualifiers** (formerly known finding K1D, repaired by repo 2dd2956): a toggle is
+written as `/name` and reads back with the empty value — under every registry that lists the name
+as a toggle, whatever follows. -/
+theorem toggle_roundtrip (reg : Registry) (d : Nat) (name rest : Bytes) (stk : List Bytes)
+    (hn : nameOk name = true) (ht : reg.typeOf name = .toggle) (hstop : litStop d rest) :
+    qualifier (sp d) reg ⟨qualifierFmt reg (sp d) name [] ++ 10 :: rest, stk⟩ =
+      (.ok ((name, []), reg), ⟨rest, stk⟩) := by
+  have hw : WritableQualifier reg d name [] = true := by simp [WritableQualifier, hn, ht]
+  have := (qualifier_roundtrip reg d name [] rest stk hw hstop).1
+  simpa [learn, ht] using this
 
-/-- K1D, proved part: outside the finding's shape (`notToggle`: the name is not registered as a
-toggle) the value itself comes back. -/
-theorem toggle_value_partial (reg : Registry) (d : Nat) (name value rest : Bytes) (stk : List Bytes)
-    (hw : WritableQualifier reg d name value = true) (hstop : litStop d rest)
-    (notToggle : reg.typeOf name ≠ .toggle) :
-    qualifier (sp d) reg ⟨qualifierFmt reg (sp d) name value ++ 10 :: rest, stk⟩ =
-      (.ok ((name, value), learn reg name), ⟨rest, stk⟩) := by
-  have := GenBank.qualifier_roundtrip reg d name value rest stk hw hstop
-  simpa [readValue, notToggle] using this
+/-- … and what the writer cannot represent: a value given to a toggle through the API is not
+written, so it comes back empty (this is the domain clause `value = []` of `WritableQualifier`,
+not a defect of the reader). -/
+theorem toggle_value_not_written (reg : Registry) (name value : Bytes) (ht : reg.typeOf name = .toggle) :
+    qualifierText reg name value = qualifierText reg name [] := by
+  simp [qualifierText, ht]
 
 /-- K1E, FULL STATEMENT (false): "every value of a quoted qualifier reads back".  Witness: `/note`
 with the value `a"b` reads back as `a` (and what follows is no longer read as this feature's). -/
@@ -95,32 +91,41 @@ theorem qualifier_lines_roundtrip (reg : Registry) (d : Nat) (items : List (Byte
     (stk : List Bytes) (hw : ∀ kv ∈ items, WritableQualifier reg d kv.1 kv.2 = true)
     (hrest : (sp d).isPrefixOf rest = false) :
     qualifiers (sp d) (items.length + 1) reg [] ⟨qualLines reg d items ++ rest, stk⟩ =
-      (.ok (items.map (fun kv => (kv.1, readValue reg kv.1 kv.2)), learnAll reg items), ⟨rest, stk⟩) ∧
+      (.ok (items, learnAll reg items), ⟨rest, stk⟩) ∧
     reg.le (learnAll reg items) := by
   refine ⟨?_, learnAll_le reg items⟩
   have := qualifiers_roundtrip reg d items rest stk reg [] (items.length + 1) (sameText_refl reg) hw hrest (by omega)
+  have hid : items.map (fun kv => (kv.1, readValue reg kv.1 kv.2)) = items := by
+    have : ∀ kv ∈ items, (kv.1, readValue reg kv.1 kv.2) = kv := fun kv hkv => by
+      rw [readValue_eq reg d kv.1 kv.2 (hw kv hkv)]
+    exact (List.map_congr_left this).trans (List.map_id _)
+  rw [hid] at this
   simpa using this
 
 /-! ## feature table -/
 
 /-- **FEATURES round trip.**  The section `GenBank.String` writes for a non-empty table (header
 line, key lines with the 5+16 column layout, qualifier lines at column 21, final line feed), read by
-`genbankFeatureParser`: the same keys and locations in the same order, every qualifier item with
-its value (`\n` for toggles: K1D), the registry only grows.  Domain `tableWritable`: keys are
-snake-case words of 1..15 bytes, every row has a name, every written item is a
-`WritableQualifier`; locations satisfy `LocRT` (C06).  The text behind the table must not start
-with five blanks. -/
+`genbankFeatureParser`: THE SAME TABLE — keys, locations, qualifier names, values and their order —
+and the registry only grows.  Domain `tableFaithful`: keys are snake-case words of 1..15 bytes,
+every `Props` is what `Props.Add` builds (rows `name :: value :: …` with pairwise distinct names),
+every written item is a `WritableQualifier`; locations satisfy `LocRT` (C06).  The text behind the
+table must not start with five blanks. -/
 theorem features_roundtrip (reg : Registry) (ft : QFeature) (fs : List QFeature) (rest : Bytes)
-    (stk : List Bytes) (hw : tableWritable reg (ft :: fs) = true) (hloc : ∀ x ∈ ft :: fs, LocRT x.loc)
+    (stk : List Bytes) (hw : tableFaithful reg (ft :: fs) = true) (hloc : ∀ x ∈ ft :: fs, LocRT x.loc)
     (hrest : (sp 5).isPrefixOf rest = false) :
     (∃ t, tableText reg (ft :: fs) = .ok t ∧
       featuresField reg ⟨bs "FEATURES             Location/Qualifiers\n" ++ (t ++ 10 :: rest), stk⟩ =
-        (.ok ((ft :: fs).map (readFeature reg), learnTable reg (ft :: fs)), ⟨rest, []⟩)) ∧
-    reg.le (learnTable reg (ft :: fs)) :=
-  ⟨GenBank.features_roundtrip reg ft fs rest stk hw hloc hrest, learnTable_le reg _⟩
+        (.ok (ft :: fs, learnTable reg (ft :: fs)), ⟨rest, []⟩)) ∧
+    reg.le (learnTable reg (ft :: fs)) := by
+  refine ⟨?_, learnTable_le reg _⟩
+  have hw' := hw
+  simp only [tableFaithful, Bool.and_eq_true] at hw'
+  have := GenBank.features_roundtrip reg ft fs rest stk hw'.1 hloc hrest
+  rwa [readTable_eq reg (ft :: fs) hw] at this
 
 /-- non-vacuity of the Boolean part of the table domain -/
-example : tableWritable Registry.default
+example : tableFaithful Registry.default
     [⟨bs "source", .ranged 0 10 false false, [[bs "organism", bs "Homo sapiens"], [bs "focus", bs ""]]⟩,
      ⟨bs "x23456789012345", .point 3, [[bs "zzz", bs "learned"], [bs "codon_start", bs "1"]]⟩] = true := by
   decide +kernel
@@ -227,49 +232,28 @@ example : listOk [bs "RefSeq", bs "complete genome"] = true ∧ listOk [] = true
       bs "iiiiiiiii jjjjjjjjj kkkkkkkkk lllllllll mmmmmmmmm nnnnnnnnn ooooooooo ppppppppp qqqqqqqqq"] = true := by
   decide +kernel
 
-/-- **SOURCE / ORGANISM / taxonomy.**  The species comes back as it was wrapped; the organism
-name (domain `organismOk`: it stays on one line and does not start with a blank) and the taxonomy
-list (domain `taxonOk`) come back. -/
+/-- **SOURCE / ORGANISM / taxonomy.**  The species text (any text without carriage return, of any
+length, with or without line feeds — written as it is since repo 3d74d27, formerly known finding
+K1C), the organism name (domain `organismOk`: one line that does not start with a blank; written
+unwrapped since repo 69bb3bf, formerly known finding K1B) and the taxonomy list (domain `taxonOk`)
+come back. -/
 theorem source_roundtrip (f : Fields) (species name : Bytes) (taxon : List Bytes) (rest : Bytes)
-    (stk : List Bytes) (hs : noCR (wrapSpace species) = true) (hn : organismOk name = true)
+    (stk : List Bytes) (hs : noCR species = true) (hn : organismOk name = true)
     (ht : taxonOk taxon = true) (hrest : (sp 12).isPrefixOf rest = false) :
     sourceField 12 f
-        ⟨bs "SOURCE      " ++ (addPrefix indent (wrapSpace species) ++ 10 ::
-          (bs "  ORGANISM  " ++ (addPrefix indent (wrapSpace name) ++ 10 ::
+        ⟨bs "SOURCE      " ++ (addPrefix indent species ++ 10 ::
+          (bs "  ORGANISM  " ++ (addPrefix indent name ++ 10 ::
           (indent ++ (addPrefix indent (wrapSpace (joinWith (bs "; ") taxon ++ [46])) ++ 10 :: rest))))), stk⟩ =
-      (.ok ({ f with species := wrapSpace species, organism := name, taxon := taxon }, true), ⟨rest, stk⟩) :=
+      (.ok ({ f with species := species, organism := name, taxon := taxon }, true), ⟨rest, stk⟩) :=
   GenBank.source_roundtrip f species name taxon rest stk hs hn ht hrest
 
-/-- a text that `wrap.Space(…, 67)` breaks -/
+/-- the witness of the former findings K1B / K1C: a text that `wrap.Space(…, 67)` would break -/
 def wrapWitness : Bytes := List.replicate 40 97 ++ [32] ++ List.replicate 40 98
 
-/-- K1C, FULL STATEMENT (false): "the species reads back".  At the witness (40 `a`, a blank, 40 `b`)
-the text that comes back has a line feed in place of the blank. -/
-theorem species_full_refuted : wrapSpace wrapWitness ≠ wrapWitness ∧ noCR (wrapSpace wrapWitness) = true := by
-  decide +kernel
-
-/-- K1C, proved part: a species that `wrap.Space` leaves alone (`fits`) reads back. -/
-theorem species_partial (f : Fields) (species name : Bytes) (taxon : List Bytes) (rest : Bytes)
-    (stk : List Bytes) (fits : wrapSpace species = species) (hs : noCR species = true)
-    (hn : organismOk name = true) (ht : taxonOk taxon = true) (hrest : (sp 12).isPrefixOf rest = false) :
-    sourceField 12 f
-        ⟨bs "SOURCE      " ++ (addPrefix indent (wrapSpace species) ++ 10 ::
-          (bs "  ORGANISM  " ++ (addPrefix indent (wrapSpace name) ++ 10 ::
-          (indent ++ (addPrefix indent (wrapSpace (joinWith (bs "; ") taxon ++ [46])) ++ 10 :: rest))))), stk⟩ =
-      (.ok ({ f with species := species, organism := name, taxon := taxon }, true), ⟨rest, stk⟩) := by
-  have := GenBank.source_roundtrip f species name taxon rest stk (by rw [fits]; exact hs) hn ht hrest
-  rw [fits] at this ⊢
-  exact this
-
-/-- K1B, FULL STATEMENT (false): "the organism name reads back".  At the witness the reader keeps
-the first wrapped line as the name and reads the second one as the taxonomy. -/
-theorem organism_full_refuted :
-    organismOk wrapWitness = false ∧
-    ((sourceField 12 Fields.empty).run'
-        ⟨bs "SOURCE      " ++ (addPrefix indent (wrapSpace []) ++ 10 ::
-          (bs "  ORGANISM  " ++ (addPrefix indent (wrapSpace wrapWitness) ++ 10 ::
-          (indent ++ (addPrefix indent (wrapSpace (joinWith (bs "; ") [] ++ [46])) ++ bs "\n//\n"))))), []⟩).1 =
-      .ok ({ Fields.empty with organism := List.replicate 40 97, taxon := [List.replicate 40 98 ++ [32]] }, true) := by
+/-- non-vacuity: the texts on which K1B and K1C failed are in the domain now, and so is a species
+text with line feeds -/
+example : wrapSpace wrapWitness ≠ wrapWitness ∧ organismOk wrapWitness = true ∧ noCR wrapWitness = true ∧
+    noCR (bs "Escherichia coli\n  str. K-12") = true := by
   decide +kernel
 
 /-- **REFERENCE**: head line (number, padding, info) and the sub-fields AUTHORS, CONSRTM, TITLE,
@@ -354,8 +338,9 @@ theorem features_roundtrip_canon (reg : Registry) (ft : QFeature) (fs : List QFe
 locations satisfy `LocRT`), `GenBank.String` succeeds and `GenBankParser`, run on that text followed
 by ANY further text `rest'`, returns `readBack reg r p`, consumes exactly the record's text, and
 ends with the registry `learnTable reg r.table ⊇ reg`.  `readBack` is the record itself except for
-the three known findings: accession with the REGION suffix and no region (K1A), species as wrapped
-(K1C), toggle values `\n` (K1D, in `readFeature`); the residues are kept as the written block. -/
+the accession, which carries the REGION suffix while the region is gone (known finding K1A); the
+table comes back feature by feature as `readFeature` (the written items added back one by one: the
+feature itself under `tableFaithful`); the residues are kept as the written block. -/
 theorem read_write (reg : Registry) (r : Record) (p : Bytes) (ho : r.origin = .residues p)
     (hw : Writable reg r p = true) (hloc : ∀ x ∈ r.table, LocRT x.loc) (rest' : Bytes) :
     (∃ t, write reg r = .ok t ∧ t ≠ [] ∧
@@ -377,21 +362,20 @@ theorem read_write_canon (reg : Registry) (r : Record) (p : Bytes) (ho : r.origi
     (fun x hx => locRT_of_canon x.loc (List.all_eq_true.mp hw.2 x hx)) rest'
   exact ⟨t, h1, h2⟩
 
-/-- **fidelity**, proved part: with no region (`noRegion`, K1A) and a species that fits its line
-(`fits`, K1C) the header fields that come back are the fields that were written; the table comes
-back feature by feature as `readFeature` (same key, same location, the qualifier items in order with
-`\n` for toggle values, K1D); the residues decode to the residues (C16). -/
+/-- **fidelity**, proved part: with no region (`noRegion`, known finding K1A) the header fields that
+come back are the fields that were written; a table of the domain `tableFaithful` comes back as the
+same table; the residues decode to the residues (C16). -/
 theorem read_write_faithful_partial (reg : Registry) (r : Record) (p : Bytes)
-    (noRegion : r.fields.region = none) (fits : wrapSpace r.fields.species = r.fields.species)
+    (noRegion : r.fields.region = none) (htab : tableFaithful reg r.table = true)
     (hlen : p.length < 10 ^ 9) :
-    (readBack reg r p).fields = r.fields ∧ (readBack reg r p).table = r.table.map (readFeature reg) ∧
+    (readBack reg r p).fields = r.fields ∧ (readBack reg r p).table = r.table ∧
     (readBack reg r p).origin.bytes = .ok p := by
   obtain ⟨f, t, o⟩ := r
-  simp only at noRegion fits
-  refine ⟨?_, rfl, ?_⟩
+  simp only at noRegion htab
+  refine ⟨?_, readTable_eq reg t htab, ?_⟩
   · obtain ⟨a1, a2, a3, a4, a5, a6, a7, a8, a9, a10, a11, a12, a13, a14, a15, a16, a17, a18, a19, a20⟩ := f
-    simp only at noRegion fits
-    simp [readBack, accessionLine, noRegion, fits]
+    simp only at noRegion
+    simp [readBack, accessionLine, noRegion]
   · by_cases hp : p.isEmpty = true
     · have : p = [] := by simpa using hp
       subst this
